@@ -1085,7 +1085,12 @@ def cv_worker(job):
     try:
         from . import cv_backbone, cv_explore
         with quiet():
-            gen_ref.make_reference(case, seed, 2)
+            if rng.random() < 0.4:
+                # the two genes on different chromosomes (inter-chromosomal fusion)
+                gen_ref.make_reference_two_chrom(case, seed)
+                out['stats']['two_chromosomes'] = 1
+            else:
+                gen_ref.make_reference(case, seed, 2)
             genome, anno, _ = gen_ref.load_reference(case)
         gtf_text, fasta_text = open(case.gtf).read(), open(case.genome).read()
         a = light_anno(gtf_text, fasta_text)
